@@ -32,7 +32,7 @@ for nm, cxx, nb, ty, uty, nd, lt, isfp in RT:
         under_contract=['unodb::key_encoder::encode(%s)' % cxx, 'unodb::key_decoder::decode(%s&)' % cxx, 'unodb::key_encoder::key_encoder()', 'unodb::key_encoder::get_key_view()', 'unodb::key_decoder::key_decoder(key_view)'],
         replay='replay/enc.cpp', floor=20, timeout=600)
 for lem in ('lemma_equal', 'lemma_prefix_free', 'lemma_order', 'lemma_concat'):
-    job('enc.text.' + lem, ['C11', 'C15'], 'u_enc', 'proofs/enc/text_lemmas.c', entry=lem, roots={}, floor=1, timeout=300,
+    job('enc.text.' + lem, ['C15'] if lem == 'lemma_prefix_free' else ['C11', 'C15'], 'u_enc', 'proofs/enc/text_lemmas.c', entry=lem, roots={}, floor=1, timeout=300,
         under_contract=['lemma over the contract of key_encoder::encode_text: ' + lem],
         trusted=['existence of a first-difference index for two different byte strings (well-ordering), list induction over the component schema'])
 job('enc.compare', ['C11', 'C02'], 'u_enc', 'proofs/enc/compare.c', roots={'COMPARE': r'^unodb::detail::compare\(std::span'},
